@@ -24,6 +24,10 @@ type VerifCensus struct {
 	Value      int
 	Collision  int
 	MaxDepth   int
+	// node kinds met below the root (depth > 1): the conversions between kinds behave differently there
+	BitmapDeep    int
+	HashArrayDeep int
+	CollisionDeep int
 	Structural uint64 // content fingerprint of the whole trie (node kinds, bitmaps, keys, values)
 }
 
@@ -115,6 +119,9 @@ func verifWalk[K, V any](n mapNode[K, V], shift uint, prefix uint32, hs fp.Hasha
 		fmt.Fprint(h, "]")
 	case *mapBitmapIndexedNode[K, V]:
 		c.Bitmap++
+		if depth > 1 {
+			c.BitmapDeep++
+		}
 		fmt.Fprintf(h, "B%x[", node.bitmap)
 		if bits.OnesCount32(node.bitmap) != len(node.nodes) {
 			return fmt.Errorf("bitmap node: popcount(%#x)=%d but %d children", node.bitmap, bits.OnesCount32(node.bitmap), len(node.nodes))
@@ -135,6 +142,9 @@ func verifWalk[K, V any](n mapNode[K, V], shift uint, prefix uint32, hs fp.Hasha
 		fmt.Fprint(h, "]")
 	case *mapHashArrayNode[K, V]:
 		c.HashArray++
+		if depth > 1 {
+			c.HashArrayDeep++
+		}
 		fmt.Fprint(h, "H[")
 		cnt := uint(0)
 		for b := uint32(0); b < mapNodeSize; b++ {
@@ -166,6 +176,9 @@ func verifWalk[K, V any](n mapNode[K, V], shift uint, prefix uint32, hs fp.Hasha
 		fmt.Fprintf(h, "V(%v=%v)", node.key, node.value)
 	case *mapHashCollisionNode[K, V]:
 		c.Collision++
+		if depth > 2 {
+			c.CollisionDeep++
+		}
 		c.Entries += len(node.entries)
 		fmt.Fprintf(h, "C%x[", node.keyHash)
 		if len(node.entries) < 2 {
